@@ -1437,6 +1437,7 @@ def summarize_online(ix, cls, facts=()):
     e2 = dict(env)
     e2['#facts'] = [t, Aff.sym('n') - Aff.const(1) - t]
     out = None
+    shortcuts = []
     for s in upd.node.body:
         if isinstance(s, ast.Expr) and isinstance(s.value, ast.Constant):
             continue
@@ -1468,10 +1469,44 @@ def summarize_online(ix, cls, facts=()):
         if isinstance(s, ast.Return):
             out = it.term(s.value, e2)
             break
+        # saturation shortcut:  if sample == +-inf: return sample.  +inf absorbs max, -inf absorbs min -- for a window that contains the newest sample
+        sat = _saturation_shortcut(s, ups)
+        if sat is not None:
+            shortcuts.append(sat + (s.lineno,))
+            continue
         raise Unknown('update statement %s' % ast.unparse(s)[:50])
     if out is None:
         raise Unknown('update returns nothing')
-    return canonical(out), it
+    res = canonical(out)
+    for (param, sign, lineno) in shortcuts:
+        ok = False
+        if res[0] == 'red' and res[5][0] == 'leaf' and res[5][2].coeff(res[2]) == 1:
+            op, lo, hi = res[1], res[3], res[4]
+            rest = res[5][2] - Aff.sym(res[2])        # leaf index = t + var + rest
+            absorbing = (op == 'max' and sign > 0) or (op == 'min' and sign < 0)
+            # offset 0 (the newest sample) inside [lo + rest, hi + rest]
+            it.require(-(lo + rest), 'the newest sample lies in the window (the early result for a saturated sample is the window\'s value only then)', lineno, e2['#facts'])
+            it.require(hi + rest, 'the newest sample lies in the window (the early result for a saturated sample is the window\'s value only then)', lineno, e2['#facts'])
+            ok = absorbing
+        if not ok:
+            it.obligations.append(('the early return for a saturated sample returns the absorbing element of the reduction over a window that contains the newest sample', False, lineno))
+    return res, it
+
+
+def _saturation_shortcut(s, params):
+    """`if P == float('inf'): return P`  ->  (P, +1);  with -float('inf')  ->  (P, -1)"""
+    if not (isinstance(s, ast.If) and not s.orelse and isinstance(s.test, ast.Compare) and len(s.test.ops) == 1 and isinstance(s.test.ops[0], ast.Eq)):
+        return None
+    l, r = s.test.left, s.test.comparators[0]
+    if not (isinstance(l, ast.Name) and l.id in params):
+        return None
+    c = O.const_of(r)
+    if c is None or c[1] not in ('inf', '-inf'):
+        return None
+    body = [x for x in s.body if not (isinstance(x, ast.Expr) and isinstance(x.value, ast.Constant))]
+    if len(body) == 1 and isinstance(body[0], ast.Return) and isinstance(body[0].value, ast.Name) and body[0].value.id == l.id:
+        return (l.id, 1 if c[1] == 'inf' else -1)
+    return None
 
 
 def _bufname(e):
